@@ -29,12 +29,12 @@ def reemitCase (bs : Bytes) (tag : String) (cls : String := "") : Case :=
   { op := "reemit", args := [("hex", jhex bs)], model := m, spec := some s!"ok:n=188:{hex bs}", tag := tag, cls := cls }
 
 /-- several packets read with NextPacket FIRST, then all re-emitted with WritePacket: the bytes of the stream -/
-def reemitStreamCase (pkts : List Bytes) (tag : String) : Case :=
+def reemitStreamCase (pkts : List Bytes) (tag : String) (afterTables : Bool := false) : Case :=
   let outs := pkts.map fun bs => match (parsePacket none).val bs with
     | .ok p => (match writePacket p 188 with | .ok w => some w | _ => none)
     | _ => none
   let m := if outs.all Option.isSome then s!"ok:{hex (outs.filterMap id).flatten}" else "err"
-  { op := "reemitStream", args := [("hex", jhex pkts.flatten)], model := m, spec := some s!"ok:{hex pkts.flatten}", tag := tag }
+  { op := "reemitStream", args := [("hex", jhex pkts.flatten), ("afterTables", jbool afterTables)], model := m, spec := some s!"ok:{hex pkts.flatten}", tag := tag }
 
 def mutate (bs : Bytes) : Gen Bytes := do
   let k ← randBelow 4
@@ -69,6 +69,7 @@ def run (t : Tier) : Emit Unit := do
     let n ← liftGen (randRange 2 6)
     let ps ← liftGen (genList n genPacket)
     emit "C11" (reemitStreamCase (ps.map Spec.tsEncode) "reemit-after-reading-on")
+    emit "C11" (reemitStreamCase (ps.map Spec.tsEncode) "reemit-on-a-used-muxer" true)
   -- (2) header space: every PID; every combination of the other header fields
   for pid in [0:8192] do
     if t.quick && pid % 8 != 0 && pid > 64 && pid < 8128 then continue
